@@ -324,8 +324,12 @@ func (x *seqExec) exec(op Op) {
 	case "dump":
 		g.H.VerifDumpHints()
 	case "advance":
-		g.W.Advance(time.Duration(op.D) * time.Millisecond)
-		g.W.WaitIdle()
+		// keep record timestamps inside the uint32 range of the on-disk format (and the
+		// simulated clock inside int64 nanoseconds)
+		if x.nowUnix()+op.D/1000 < 4200000000 {
+			g.W.Advance(time.Duration(op.D) * time.Millisecond)
+			g.W.WaitIdle()
+		}
 	case "gc":
 		x.doGC(op)
 	case "list":
